@@ -2,7 +2,7 @@ from vf.core import Property, Harness
 from .units_sm import SM_LEGACY, SM_LESC, SM_COMB, KIND_CFGS, SMP_SIZE, HANDLED, history_cases, env_filter
 
 QUICK_CFGS = {0: [1, 4], 1: [7], 2: [10]}
-K = {'quick': {0: 4, 1: 4, 2: 4}, 'thorough': {0: 6, 1: 6, 2: 6}}
+K = {'quick': {0: 4, 1: 2, 2: 2}, 'thorough': {0: 6, 1: 5, 2: 5}}
 
 
 def mk_cases(kind):
@@ -24,17 +24,17 @@ def mk_cases(kind):
 
 FLAGS = ['-DVF_MAX_INPUTS=4096']
 CBMC = ['--max-field-sensitivity-array-size', '4096']
-COMMON = dict(unwind=70, timeout=1500, flags=FLAGS, cbmc_flags=CBMC, object_bits=11, diff_iters=200, diff_cases=4)
+COMMON = dict(unwind=70, timeout=3600, flags=FLAGS, cbmc_flags=CBMC, object_bits=14, diff_iters=200, diff_cases=4)
 PROPERTY = Property(
     'C33',
     [Harness('c33_sm_legacy', SM_LEGACY, 'harness/c33_sm.c', mk_cases(0),
              description='legacy manager: find_key(EDIV, Rand) before and after one step from every pairing state, and after every operation of bounded histories from reset',
              bounds='cfg 0..4 (quick: 1, 4 = with bond data base); histories K=4 / 6', **COMMON),
-     Harness('c33_sm_lesc', SM_LESC, 'harness/c33_sm.c', mk_cases(1), description='LESC manager: same', bounds='cfg 5..7 (quick: 7 = with bond data base); histories K=4 / 6', **COMMON),
-     Harness('c33_sm_comb', SM_COMB, 'harness/c33_sm.c', mk_cases(2), description='combined manager: same', bounds='cfg 8..11 (quick: 10 = with bond data base); histories K=4 / 6', **COMMON)],
+     Harness('c33_sm_lesc', SM_LESC, 'harness/c33_sm.c', mk_cases(1), description='LESC manager: same', bounds='cfg 5..7 (quick: 7 = with bond data base); histories K=2 / 5', **COMMON),
+     Harness('c33_sm_comb', SM_COMB, 'harness/c33_sm.c', mk_cases(2), description='combined manager: same', bounds='cfg 8..11 (quick: 10 = with bond data base); histories K=2 / 5', **COMMON)],
     functions=['details::legacy_security_connection_data::find_key', 'details::lesc_security_connection_data::find_key', 'details::security_connection_data::find_key',
                'bonding_data_base::bonding_db_data_t::find_key', 'legacy_pairing_completed / lesc_pairing_completed (key stored)', 'the pairing handlers of C32 (they decide when a pairing is completed)'],
-    bounds='12 manager configurations; EDIV / Rand symbolic (with 0 / 0 forced in a symbolic subset); step: every pairing state with symbolic key material x one PDU / poll / user answer; histories of 4 (quick) / 6 (thorough) operations from reset',
+    bounds='12 manager configurations; EDIV / Rand symbolic (with 0 / 0 forced in a symbolic subset); step: every pairing state with symbolic key material x one PDU / poll / user answer; histories from reset of 4 / 6 operations (legacy), 2 / 5 operations (LESC, combined) in quick / thorough',
     assumptions=['as C32 (arbitrary crypto, OOB, bond data base; yes_no_response only while outstanding)',
                  '"pairing completed successfully" = the peripheral sent the last phase 2 PDU of the running pairing (legacy: Pairing Random with Srand after the confirm check; LESC: its DHKey check Eb) and no Pairing Failed / new pairing since; whether Eb was sent legitimately is C32\'s subject',
                  'the bond data base is arbitrary: any lookup may hit or miss with any key; a hit counts only if it was asked with the requested EDIV, Rand and the peer address of this connection'],
